@@ -35,6 +35,8 @@ def setup_paths():
     warnings.filterwarnings('ignore')    # library chatter (SyntaxWarning on import, RuntimeWarning from solvers) is not parsed
     for p in (REPO, VERIF, os.path.join(VERIF, '.deps')):
         if p in sys.path: sys.path.remove(p)
+    if os.path.isdir('/verif/.deps') and '/verif/.deps' not in sys.path:
+        sys.path.append('/verif/.deps')     # snapshots of /verif (vp run) do not carry the untracked .deps
     sys.path.insert(0, os.path.join(VERIF, '.deps'))
     sys.path.insert(0, VERIF)
     sys.path.insert(0, REPO)
